@@ -10,6 +10,34 @@ PV = "insights.client.apps.ansible.playbook_verifier"
 SR = PV + ".serializer"
 
 
+def _len_values(atoms, text):
+    """The set of values of ``text`` allowed by the guard atoms (None: unbounded)."""
+    vals, excl = None, set()
+    for t, p in atoms:
+        try:
+            e = ast.parse(t, mode="eval").body
+        except SyntaxError:
+            continue
+        if not (isinstance(e, ast.Compare) and len(e.ops) == 1 and U(e.left) == text):
+            continue
+        try:
+            rhs = ast.literal_eval(e.comparators[0])
+        except ValueError:
+            continue
+        op = e.ops[0]
+        if isinstance(op, ast.Eq) and isinstance(rhs, int):
+            cand = set([rhs])
+        elif isinstance(op, ast.In) and isinstance(rhs, (tuple, list, set)):
+            cand = set(rhs)
+        else:
+            continue
+        if p:
+            vals = cand if vals is None else vals & cand
+        else:
+            excl |= cand
+    return None if vals is None else vals - excl
+
+
 def r1_exclusion(cx):
     cx.rule("C18.R1", "only 'hosts'/'vars' or a direct child of them can be excluded; anything else is an error", floor=7)
     m = cx.repo.module(PV)
@@ -40,7 +68,7 @@ def r1_exclusion(cx):
             node = node.value
         base = U(node)
         g = set(guard_texts(d, stop=lp))
-        ok = depth in (1, 2) and ("len(elements) == %d" % depth, True) in g and ("elements[0] in PLAYBOOK_DYNAMIC_LABELS", True) in g and base == "result" \
+        ok = depth in (1, 2) and _len_values(g, "len(elements)") == set([depth]) and ("elements[0] in PLAYBOOK_DYNAMIC_LABELS", True) in g and base == "result" \
             and list(reversed(subs)) == ["elements[%d]" % i for i in range(depth)]
         cx.require(ok, d, "a deletion at depth %d is guarded by len(elements) == %d and elements[0] in PLAYBOOK_DYNAMIC_LABELS, on the copy" % (depth, depth),
                    construct="%s guarded by %s" % (short(d), sorted(g)))
@@ -77,6 +105,14 @@ def r1_exclusion(cx):
     cx.require(ok, el[0] if el else lp, "a request is split into its path elements", construct=short(el[0]) if el else "(none)")
 
 
+def _sig_text(t):
+    """Look-ups with a default and plain subscripts denote the same element when the element exists."""
+    for a, b in (((".get('vars', None)"), "['vars']"), (".get('vars', {})", "['vars']"), (".get('vars')", "['vars']"),
+                 (".get(PLAYBOOK_SIGNATURE_LABEL, None)", "[PLAYBOOK_SIGNATURE_LABEL]"), (".get(PLAYBOOK_SIGNATURE_LABEL)", "[PLAYBOOK_SIGNATURE_LABEL]")):
+        t = t.replace(a, b)
+    return t
+
+
 def r2_digest_input(cx):
     cx.rule("C18.R2", "the digest is SHA-256 of the serialisation of the whole cleaned play", floor=5)
     m = cx.repo.module(PV)
@@ -89,7 +125,7 @@ def r2_digest_input(cx):
         ok = U(a0) == "exclude_dynamic_elements(%s)" % play
     cx.require(ok, ev[0] if ev else vp, "verify_play verifies exclude_dynamic_elements(<the whole play>)", construct=short(ev[0]) if ev else "(none)")
     sig = trace(ev[0].args[1], vp) if ev and len(ev[0].args) > 1 else None
-    cx.require(sig is not None and U(sig) == "%s['vars'][PLAYBOOK_SIGNATURE_LABEL]" % play, ev[0] if ev else vp, "the signature checked is the play's own", construct="encoded_signature = %s" % U(sig))
+    cx.require(sig is not None and _sig_text(U(sig)) == "%s['vars'][PLAYBOOK_SIGNATURE_LABEL]" % play, ev[0] if ev else vp, "the signature checked is the play's own", construct="encoded_signature = %s" % U(sig))
     xv = m.func("execute_verification", "C18.R2")
     p = params(xv)[0]
     sp = [a for a in walk_body(xv.body) if isinstance(a, ast.Assign) and U(a.value) == "serialize_play(%s)" % p]
@@ -107,6 +143,7 @@ def r2_digest_input(cx):
     ups = [x for x in find_calls(hf.body, attr="update")]
     rets = [r for r in walk_body(hf.body) if isinstance(r, ast.Return)]
     ok = len(shas) == 1 and len(ups) == 1 and U(ups[0].args[0]) == hp0 and len(rets) == 1 and U(rets[0].value) == "%s.digest()" % U(shas[0].targets[0]) and not guard_texts(ups[0])
+    ok = ok or (not ups and len(rets) == 1 and U(rets[0].value) == "hashlib.sha256(%s).digest()" % hp0 and not guard_texts(rets[0]))
     cx.require(ok, hf, "hash_play = sha256 over the whole byte string, one update", construct="sha.update(serialized_play); return sha.digest()")
     sf = m.func("serialize_play", "C18.R2")
     sp0 = params(sf)[0]
@@ -137,6 +174,16 @@ def r3_checks_dominate(cx):
         rs = [r for r in walk_body(lp[0].body) if isinstance(r, ast.Raise)]
         ok = len(rs) == 1 and "PlaybookVerificationError" in U(rs[0].exc) and set(guard_texts(rs[0], stop=lp[0])) == set([("play_hash == bytearray.fromhex(%s['hash'])" % U(lp[0].target), True)]) \
             and not [b for b in walk_body(lp[0].body) if isinstance(b, (ast.Break, ast.Continue, ast.Return))] and syn_dominates(lp[0], rets[0])
+    if not lp:
+        for r in [x for x in walk_body(vf.body) if isinstance(x, ast.Raise) and "PlaybookVerificationError" in U(x.exc)]:
+            for t, p in guard_texts(r):
+                e = ast.parse(t, mode="eval").body
+                if p and isinstance(e, ast.Call) and call_name(e) == "any" and e.args and isinstance(e.args[0], (ast.GeneratorExp, ast.ListComp)):
+                    g0 = e.args[0].generators
+                    if len(g0) == 1 and U(g0[0].iter) == "revocation_list" and not g0[0].ifs and U(e.args[0].elt) == "play_hash == bytearray.fromhex(%s['hash'])" % U(g0[0].target) \
+                            and syn_dominates([a for a in ancestors(r) if any(a is b for b in vf.body)][0], rets[0]):
+                        ok = True
+                        lp = [r]
     cx.require(ok, lp[0] if lp else vf, "every revocation entry is compared with the digest; a match raises; the loop precedes the success return", construct=short(lp[0], 140) if lp else "(no revocation loop)")
     rl = [a for a in walk_body(vf.body) if isinstance(a, ast.Assign) and U(a.targets[0]) == "revocation_list"]
     ok = len(rl) == 1 and isinstance(rl[0].value, ast.Call) and call_name(rl[0].value) == "get_play_revocation_list" and not guard_texts(rl[0]) - set(guard_texts(rets[0]))
@@ -152,7 +199,15 @@ def r3_checks_dominate(cx):
     if ev:
         g = set((U(e), p, o) for e, p, o in guards_ex(ev[0]))
         p0 = params(vp)[0]
-        ok = ("isinstance(%s.get('vars', None), dict)" % p0, True, "exit-raise") in g and ("%s.get('vars', {}).get(PLAYBOOK_SIGNATURE_LABEL, None) is None" % p0, False, "exit-raise") in g
+        gn = set()
+        for t, p, o in g:
+            e = ast.parse(t, mode="eval").body
+            if isinstance(e, ast.Compare) and isinstance(e.left, ast.Name) and U(e.comparators[0]) == "None":
+                d = trace(e.left, vp)
+                if d is not e.left and not any(a.lineno > ev[0].lineno for a in assigns_to(vp, e.left.id)):
+                    t = t.replace(e.left.id, U(d), 1)
+            gn.add((_sig_text(t), p, o))
+        ok = ("isinstance(%s['vars'], dict)" % p0, True, "exit-raise") in gn and ("%s['vars'][PLAYBOOK_SIGNATURE_LABEL] is None" % p0, False, "exit-raise") in gn
         cx.require(ok, ev[0], "verification runs only for a play with a 'vars' dict and a signature (both otherwise raise)", construct="guards: %s" % sorted(x[:2] for x in g))
     rsn = [r for r in walk_body(vp.body) if isinstance(r, ast.Raise)]
     cx.require(len(rsn) >= 2 and all("PlaybookVerificationError" in U(r.exc) for r in rsn), vp, "missing 'vars' or missing signature is a PlaybookVerificationError", construct="%d raises" % len(rsn))
@@ -224,6 +279,14 @@ def r4_escaping(cx):
                construct="special_chars: '\\\\' -> '\\\\\\\\', '\\n' -> '\\\\n', '\\t' -> '\\\\t'")
     lp = [s for s in sf.body if isinstance(s, ast.For)]
     ok = bool(lp) and U(lp[0].iter) == params(sf)[1] and len(lp[0].body) == 1 and U(lp[0].body[0]) == "escaped_string += special_chars.get(char, char)"
+    if not lp:
+        v0 = params(sf)[1]
+        for j in find_calls(sf.body, attr="join"):
+            a = j.args[0] if j.args else None
+            if isinstance(a, (ast.GeneratorExp, ast.ListComp)) and len(a.generators) == 1 and not a.generators[0].ifs and U(a.generators[0].iter) == v0 \
+                    and U(a.elt) == "special_chars.get({0}, {0})".format(U(a.generators[0].target)) and const_str(j.func.value) == "" and not guard_texts(j):
+                ok = True
+                lp = [j]
     cx.require(ok, lp[0] if lp else sf, "every character of the value goes through the table", construct=short(lp[0]) if lp else "(none)")
     rep = [x for x in find_calls(sf.body, attr="replace")]
     ok = len(rep) == 1 and [const_str(a) for a in rep[0].args] == ["'", "\\'"] and ("\"'\" in value", True) in guard_texts(rep[0]) and ("'\"' not in value", False) in guard_texts(rep[0]) or \
